@@ -703,11 +703,53 @@ func checkGenericForms(w *World, r *Result) {
 		}
 		return true
 	})
+	var subj ast.Expr
+	var tsBefore token.Pos // what precedes this position in fi precedes the switch
+	if ts != nil {
+		tsBefore = ts.Pos()
+	}
+	if ts == nil {
+		// the switch over the callee's form may sit in a helper that is handed the callee expression
+		ast.Inspect(fi.Decl.Body, func(x ast.Node) bool {
+			call, ok := x.(*ast.CallExpr)
+			if !ok || ts != nil {
+				return true
+			}
+			h := w.Funcs[calleeOf(info, call)]
+			if h == nil || h.Decl.Body == nil || h.Pkg != fi.Pkg {
+				return true
+			}
+			hinfo := h.Pkg.TypesInfo
+			ast.Inspect(h.Decl.Body, func(y ast.Node) bool {
+				hs, ok := y.(*ast.TypeSwitchStmt)
+				if !ok || ts != nil {
+					return true
+				}
+				var hx ast.Expr
+				switch a := hs.Assign.(type) {
+				case *ast.AssignStmt:
+					if ta, ok := a.Rhs[0].(*ast.TypeAssertExpr); ok {
+						hx = ta.X
+					}
+				case *ast.ExprStmt:
+					if ta, ok := a.X.(*ast.TypeAssertExpr); ok {
+						hx = ta.X
+					}
+				}
+				if id := identOf(hx); id != nil {
+					if pi := paramIndex(h, objOf(hinfo, id)); pi >= 0 && pi < len(call.Args) && identOf(call.Args[pi]) != nil {
+						ts, subj, tsBefore = hs, call.Args[pi], call.Pos()
+					}
+				}
+				return true
+			})
+			return true
+		})
+	}
 	if ts == nil {
 		Undecided("SHP-C13g: parseCallWithString has no type switch over the callee expression")
 	}
-	var subj ast.Expr
-	if as, ok := ts.Assign.(*ast.AssignStmt); ok && len(as.Rhs) == 1 {
+	if as, ok := ts.Assign.(*ast.AssignStmt); ok && len(as.Rhs) == 1 && subj == nil {
 		if ta, ok := as.Rhs[0].(*ast.TypeAssertExpr); ok {
 			subj = ta.X
 		}
@@ -740,7 +782,7 @@ func checkGenericForms(w *World, r *Result) {
 		obj := objOf(info, id)
 		ast.Inspect(fi.Decl.Body, func(x ast.Node) bool {
 			is, ok := x.(*ast.IfStmt)
-			if !ok || is.End() > ts.Pos() || is.Init == nil {
+			if !ok || is.End() > tsBefore || is.Init == nil {
 				return true
 			}
 			ias, ok := is.Init.(*ast.AssignStmt)
@@ -1049,9 +1091,57 @@ type strBranch struct {
 // `switch { case s == "a": … }`.
 func stringDispatch(info *types.Info, root ast.Node, isSubject func(ast.Expr) bool) []strBranch {
 	var out []strBranch
-	namesOf := func(cond ast.Expr) []string {
+	// a local bound once (in root) stands for its definition: `name := x.Sel.Name`, `isJSON := name == "JSON" || …`
+	singleDef := func(id *ast.Ident) ast.Expr {
+		obj := objOf(info, id)
+		if v, ok := obj.(*types.Var); !ok || v.IsField() {
+			return nil
+		}
+		var def ast.Expr
+		n := 0
+		ast.Inspect(root, func(y ast.Node) bool {
+			as, ok := y.(*ast.AssignStmt)
+			if !ok {
+				return true
+			}
+			for i, l := range as.Lhs {
+				if li := identOf(l); li != nil && objOf(info, li) == obj {
+					n++
+					if len(as.Lhs) == len(as.Rhs) {
+						def = as.Rhs[i]
+					}
+				}
+			}
+			return true
+		})
+		if n != 1 {
+			return nil
+		}
+		return def
+	}
+	baseSubject := isSubject
+	isSubject = func(e ast.Expr) bool {
+		if baseSubject(e) {
+			return true
+		}
+		if id := identOf(e); id != nil {
+			if d := singleDef(id); d != nil {
+				return baseSubject(d)
+			}
+		}
+		return false
+	}
+	var namesOf func(cond ast.Expr) []string
+	namesOf = func(cond ast.Expr) []string {
 		var names []string
 		ast.Inspect(cond, func(y ast.Node) bool {
+			if id, ok := y.(*ast.Ident); ok {
+				if b, isB := info.TypeOf(id).(*types.Basic); isB && b.Kind() == types.Bool {
+					if d := singleDef(id); d != nil {
+						names = append(names, namesOf(d)...)
+					}
+				}
+			}
 			if be, ok := y.(*ast.BinaryExpr); ok && be.Op == token.EQL {
 				for _, pr := range [][2]ast.Expr{{be.X, be.Y}, {be.Y, be.X}} {
 					if isSubject(pr[0]) {
